@@ -6,7 +6,7 @@ list: no repetition; every member lossless and its levels Grundy (`ss.check_leve
 Grundy colouring present (the model's members, each re-checked Grundy, must all occur); contains the optimal
 and the FCFS notation; a single round-bracket string for pseudoknot-free structures.
 """
-from core import Result, call, parallel_map
+from core import call_timed, Result, call, parallel_map
 from gen import g1
 from corr.c01 import component_sizes, components_ok
 
@@ -17,7 +17,7 @@ def real(case):
     out = {}
     out["all"] = call(lambda: [d.structure for d in b.all_dot_brackets])
     out["seqs_ok"] = all(d.sequence == seq for d in b.all_dot_brackets) if out["all"][0] == "ok" else None
-    out["opt"] = call(lambda: g1.mk_bpseq(seq, pairs).dot_bracket.structure)
+    out["opt"] = call_timed(lambda: g1.mk_bpseq(seq, pairs).dot_bracket.structure)
     out["fcfs"] = call(lambda: g1.mk_bpseq(seq, pairs).fcfs.structure)
     return out
 
